@@ -7,7 +7,8 @@
 // Protocol (one case per line, fields separated by blanks):
 //
 //	std  <zone> <ztable> <unit H|D> <num> <t>
-//	     -> <Standard(t)> <NextTime(Standard(t))> <Standard(Standard(t))> <NextTime(t)>     (unix ns)
+//	     -> with s = Standard(t), n = NextTime(s):  s n Standard(s) NextTime(t) Standard(n) Standard(n-1ns)   (unix ns)
+//	the first token may carry a tag ("std.dst", "hist.legacy"), ignored here
 //	hist <zone> <ztable> <unit> <num> <ttlUnit> <ttlNum> <clock0> <legacy> {| <op>}
 //	     legacy = "-" or start:end,start:-,...   (directories pre-created before the first open;
 //	     "-" as end = metadata without endTime)
@@ -107,7 +108,12 @@ func handle(f []string) string {
 	if len(f) == 0 {
 		return "bad-op"
 	}
-	switch f[0] {
+	// the first token may carry a case-kind tag after a dot ("std.dst", "hist.legacy", ...)
+	kind := f[0]
+	if i := strings.IndexByte(kind, '.'); i >= 0 {
+		kind = kind[:i]
+	}
+	switch kind {
 	case "std":
 		if len(f) != 6 {
 			return "bad-op"
@@ -116,7 +122,9 @@ func handle(f []string) string {
 		ir := storage.IntervalRule{Unit: unit(f[3]), Num: int(i64(f[4]))}
 		t := time.Unix(0, i64(f[5]))
 		s := ir.Standard(t)
-		return fmt.Sprintf("%d %d %d %d", s.UnixNano(), ir.NextTime(s).UnixNano(), ir.Standard(s).UnixNano(), ir.NextTime(t).UnixNano())
+		n := ir.NextTime(s)
+		return fmt.Sprintf("%d %d %d %d %d %d", s.UnixNano(), n.UnixNano(), ir.Standard(s).UnixNano(), ir.NextTime(t).UnixNano(),
+			ir.Standard(n).UnixNano(), ir.Standard(n.Add(-1)).UnixNano())
 	case "hist":
 		return hist(f)
 	}
